@@ -40,8 +40,8 @@ pub fn property() -> Property {
         subs: vec![prop_sub(
             "connections",
             "1..4 requests per connection (all roles, flag bytes, C01/C02-style content, interleaved management/unknown/foreign records) x handler scripts (read / read-to-end / fill_buf+consume / next stream / writeable / write / write_all / flush, every ExitStatus variant, I/O error returns) x reader scripts (1..n bytes, Pending) x writer scripts (1..n bytes, Pending, vectored or not) x buffer sizes; non-trivial = >=2 requests served on one connection with >=1 short read and >=1 short write; distinct = hash of the case",
-            20_000,
-            600_000,
+            100_000,
+            2_000_000,
             |_| conn::conn_case(4, true, Just(false).boxed()),
             test,
         )],
